@@ -286,6 +286,112 @@ def call_parse(case):
     return res
 
 
+def call_parse_batch(batch):
+    """several DateDataParser calls whose parsers are ALL constructed first and only then used (in reverse order of
+    construction): objects that share state behind the constructor show up as results belonging to another case.
+    batch: {cases: [call_parse cases with api 'ddp']} -> list of call_parse-shaped results"""
+    from dateparser.date import DateDataParser
+    cases = batch["cases"]
+    if any(c.get("probe") for c in cases):
+        install_absparser_probe()
+        install_nospaces_probe()
+    built = []
+    for c in cases:
+        kw = dict(c.get("kw") or {})
+        fmts = kw.pop("date_formats", None)
+        try:
+            built.append((DateDataParser(settings=decode_settings(c.get("settings")), **kw), fmts, None))
+        except BaseException as e:  # noqa
+            if isinstance(e, (KeyboardInterrupt, SystemExit)):
+                raise
+            built.append((None, fmts, e))
+    out = [None] * len(cases)
+    for i in reversed(range(len(cases))):
+        p, fmts, err = built[i]
+        res = {"out": [], "off": "naive", "period": "", "locale": "", "exc": "", "mro": [], "probe": [], "unbound": []}
+        res["clock0"] = dt_to_list(_dt.datetime.now())
+        res["uclock0"] = dt_to_list(_dt.datetime.now(_dt.timezone.utc).replace(tzinfo=None))
+        try:
+            if err is not None:
+                raise err
+            _state.events = []
+            dd = p.get_date_data(cases[i]["s"], fmts)
+            d = dd["date_obj"]
+            res["out"] = dt_to_list(d)
+            res["off"] = off_of(d)
+            res["period"] = dd["period"] or ""
+            res["locale"] = dd["locale"] or ""
+        except BaseException as e:  # noqa
+            if isinstance(e, (KeyboardInterrupt, SystemExit)):
+                raise
+            res["exc"], res["mro"] = exc_name(e)
+            res["msg"] = str(e)[:200]
+        res["clock1"] = dt_to_list(_dt.datetime.now())
+        res["uclock1"] = dt_to_list(_dt.datetime.now(_dt.timezone.utc).replace(tzinfo=None))
+        if cases[i].get("pk") and not res["exc"]:
+            res["pk"] = _pickle_copy_ok(d)
+        evs = []
+        for rec in (_state.events if cases[i].get("probe") else []):
+            sg = rec.get("sg")
+            if sg:
+                z = sg.pop("_tz", None)
+                sg["tzoff"] = _tzoff(z, rec)
+            evs.append(rec)
+        _state.events = []
+        res["probe"] = evs
+        res["unbound"] = list(_PROBE["unbound"])
+        out[i] = res
+    return out
+
+
+def call_live_twin(case):
+    """C02 mini-history: a parser made with valid settings stays alive while a call with a look-alike of those settings
+    (same text, wrong type) is made and - normally - rejected; the live parser is then used again.
+    case: {settings, kw, s1, s2, twin} -> three call_parse-shaped results [first use, twin call, second use]"""
+    from dateparser.date import DateDataParser
+    import dateparser
+    out = []
+
+    def shaped(fn):
+        res = {"out": [], "off": "naive", "period": "", "locale": "", "exc": "", "mro": [], "probe": [], "unbound": []}
+        try:
+            dd = fn()
+            if isinstance(dd, _dt.datetime) or dd is None:
+                res["out"] = dt_to_list(dd)
+                res["api"] = "parse"
+            else:
+                d = dd["date_obj"]
+                res["out"] = dt_to_list(d)
+                res["period"] = dd["period"] or ""
+                res["locale"] = dd["locale"] or ""
+                res["api"] = "ddp"
+        except BaseException as e:  # noqa
+            if isinstance(e, (KeyboardInterrupt, SystemExit)):
+                raise
+            res["exc"], res["mro"] = exc_name(e)
+            res["msg"] = str(e)[:200]
+        return res
+
+    kw = dict(case.get("kw") or {})
+    st = decode_settings(case.get("settings"))
+    holder = {}
+
+    def first():
+        holder["p"] = DateDataParser(settings=st, **kw)
+        return holder["p"].get_date_data(case["s1"])
+    out.append(shaped(first))
+    tw = decode_settings(case["twin"])
+    if case.get("twin_api") == "parse":
+        out.append(shaped(lambda: dateparser.parse(case["s1"], settings=tw, **kw)))
+    else:
+        out.append(shaped(lambda: DateDataParser(settings=tw, **kw).get_date_data(case["s1"])))
+    if "p" in holder:
+        out.append(shaped(lambda: holder["p"].get_date_data(case["s2"])))
+    else:
+        out.append(dict(out[0]))
+    return out
+
+
 def _pickle_copy_ok(d):
     import copy
     import pickle
